@@ -107,6 +107,10 @@ def gen_cases(tier, seed):
     add("udpe2e", [4, 5, 0, 7, 0, 0, 3], "e2e-empty-datagrams", True, model=False)
     add("udpe2e", [6, 1, 255, 0, 1400, 9000, 65507, 2], "e2e-ipv6-target", True, model=False)
     add("udpe2e", [4] + [r.randint(1, 1400) for _ in range(30)], "e2e-sequence", True, model=False)
+    # the target is not up yet when the first datagram is forwarded (the kernel reports the closed port back to the
+    # server's socket); once it is up, every datagram must be delivered (seed C15-3)
+    add("udpe2e", ["4L", 5, 300, 1400, 9, 2000], "e2e-target-comes-up-late", True, model=False)
+    add("udpe2e", ["6L", 7, 64, 1200], "e2e-target-comes-up-late", True, model=False)
     for _ in range(2 if quick else 40):
         add("udpe2e", [4] + [r.choice(SIZES) if r.random() < 0.2 else r.randint(1, 9000) for _ in range(r.randint(3, 12))], "e2e-sequence", True, model=False)
     return cs
@@ -116,6 +120,8 @@ def oracle(c, ir):
     if c.drv == "udpe2e":
         sizes = c.args[1:]
         exp = " ".join("%s:t:t" % n for n in sizes) + " TARGETN=%d" % len(sizes)
+        if ir.strip() == "NO-REBIND" and str(c.args[0]).endswith("L"):
+            return None       # somebody else took the port in the 300 ms window: inconclusive, not a failure
         return None if ir.strip() == exp else "datagrams through the association: got %s expected %s" % (ir[:300], exp[:300])
     if c.drv == "udpenc":
         d = unhx(c.args[1])
